@@ -680,6 +680,16 @@ class SArr(rnp.ndarray):
     def __float__(self):
         return float(self.view(rnp.ndarray).reshape(-1)[0])
 
+    def _inplace(self, name, o):
+        res = emap(UF[name], self, o)
+        rnp.ndarray.__setitem__(self, Ellipsis, res.view(rnp.ndarray))
+        return self
+
+    def __iadd__(self, o): return self._inplace('add', o)
+    def __isub__(self, o): return self._inplace('subtract', o)
+    def __imul__(self, o): return self._inplace('multiply', o)
+    def __itruediv__(self, o): return self._inplace('true_divide', o)
+
     def __matmul__(self, b):
         return dot(self, b)
 
@@ -1439,10 +1449,32 @@ np.linspace = linspace
 
 def sort(a, axis=-1, **k):
     if is_sym(a):
-        c = try_concrete(to_sarr(a))
-        if c is None:
-            raise SymxUnsupported('sort of symbolic values')
-        return rnp.sort(c, axis=axis)
+        A = to_sarr(a)
+        if A.ndim == 1:
+            keys = []
+            for v in A:
+                if isinstance(v, SNum) and v.const() is not None:
+                    keys.append(v.const())
+                elif isinstance(v, PYNUM):
+                    keys.append(core.F(v))
+                else:
+                    keys = None
+                    break
+            if keys is not None:      # constants: exact ordering, elements kept as they are
+                order = sorted(range(len(keys)), key=lambda i: keys[i])
+                return to_sarr([A[i] for i in order], A.ldtype)
+        c = try_concrete(A)
+        if c is not None:
+            return rnp.sort(c, axis=axis)
+        if A.ndim != 1:
+            raise SymxUnsupported('sort of a symbolic n-d array')
+        v = list(A)
+        n = len(v)
+        for i in range(n):                      # bubble network of min/max (conditions pruned by the path condition)
+            for j in range(n - 1 - i):
+                lo, hi = sx_min(v[j], v[j + 1]), sx_max(v[j], v[j + 1])
+                v[j], v[j + 1] = lo, hi
+        return to_sarr(v, A.ldtype)
     return rnp.sort(a, axis=axis, **k)
 
 
